@@ -56,16 +56,16 @@ Lift(e) ==
 (* current nodes: the code keeps only their priorities, the fix also their identity), inds, used.       *)
 RECURSIVE DCompLoop(_, _, _, _, _, _, _)
 DCompLoop(e, ord, i, nodes, dec, cur, st) ==
-  \* st = [inds, used]
-  IF i > Len(ord) THEN [nodes |-> nodes, used |-> st.used]
+  \* st = [inds, used, tr]; tr: the folds as the hook reports them, <<operator index, node index>> (1-based, this level)
+  IF i > Len(ord) THEN [nodes |-> nodes, used |-> st.used, tr |-> st.tr]
   ELSE LET b == ord[i]
            k == st.inds[i]
            folded == [nodes |-> RemoveAt([nodes EXCEPT ![k] = DNum(Bin(e.ops[b].o, nodes[k].val, nodes[k + 1].val))], k + 1),
                       dec   |-> RemoveAt(dec, k + 1),
                       cur   |-> RemoveAt(cur, k),
                       st    |-> [inds |-> [j \in 1..Len(st.inds) |-> IF st.inds[j] > k THEN st.inds[j] - 1 ELSE st.inds[j]],
-                                 used |-> st.used \cup {b}]]
-       IN IF k < 1 \/ k + 1 > Len(nodes) THEN [nodes |-> nodes, used |-> st.used, panic |-> TRUE]
+                                 used |-> st.used \cup {b}, tr |-> Append(st.tr, <<b, k>>)]]
+       IN IF k < 1 \/ k + 1 > Len(nodes) THEN [nodes |-> nodes, used |-> st.used, tr |-> st.tr, panic |-> TRUE]
           ELSE IF nodes[k].k = "num" /\ nodes[k + 1].k = "num"
           THEN IF FoldRule = "local"
                THEN (* fold iff the two numbers really are the operands of this operator: the operator standing on the
@@ -88,59 +88,64 @@ DCompLoop(e, ord, i, nodes, dec, cur, st) ==
                ELSE DCompLoop(e, ord, i + 1, nodes, dec, cur, st)
           ELSE DCompLoop(e, ord, i + 1, nodes, [dec EXCEPT ![k] = TRUE, ![k + 1] = TRUE], cur, st)
 
-DCompile(e0) ==
+\* [e |-> compiled expression, tr |-> folds of this compile() call]
+DCompileTr(e0) ==
   LET e == Lift(e0) IN
-  IF Len(e.nodes) = 0 THEN e
+  IF Len(e.nodes) = 0 THEN [e |-> e, tr |-> <<>>]
   ELSE
   LET ord == DOrder(e)
-      c   == DCompLoop(e, ord, 1, e.nodes, [j \in 1..Len(e.nodes) |-> FALSE], e.ops, [inds |-> ord, used |-> {}])
+      c   == DCompLoop(e, ord, 1, e.nodes, [j \in 1..Len(e.nodes) |-> FALSE], e.ops, [inds |-> ord, used |-> {}, tr |-> <<>>])
       ops == Keep(e.ops, c.used, 1)
-  IN IF "panic" \in DOMAIN c THEN e @@ [panic |-> TRUE]
-     ELSE IF Len(c.nodes) = 1 /\ c.nodes[1].k = "num"
-          THEN [nodes |-> <<DNum(ApplyUn(e.un, c.nodes[1].val))>>, ops |-> ops, un |-> <<>>]
-          ELSE [nodes |-> c.nodes, ops |-> ops, un |-> e.un]
+  IN [tr |-> c.tr,
+      e  |-> IF "panic" \in DOMAIN c THEN e @@ [panic |-> TRUE]
+             ELSE IF Len(c.nodes) = 1 /\ c.nodes[1].k = "num"
+                  THEN [nodes |-> <<DNum(ApplyUn(e.un, c.nodes[1].val))>>, ops |-> ops, un |-> <<>>]
+                  ELSE [nodes |-> c.nodes, ops |-> ops, un |-> e.un]]
+DCompile(e0) == DCompileTr(e0).e
 
 \* DeepEx::new
+\* the result carries the folds of its compile() call in the field tr
 DNew(nodes, ops, un) ==
-  IF Len(nodes) + Len(ops) + Len(un) = 0 THEN [err |-> "none", e |-> EmptyDeep]
-  ELSE IF Len(nodes) # Len(ops) + 1 THEN [err |-> "count"]
-  ELSE [err |-> "none", e |-> DCompile([nodes |-> nodes, ops |-> ops, un |-> un])]
+  IF Len(nodes) + Len(ops) + Len(un) = 0 THEN [err |-> "none", e |-> EmptyDeep, tr |-> <<>>]
+  ELSE IF Len(nodes) # Len(ops) + 1 THEN [err |-> "count", tr |-> <<>>]
+  ELSE LET c == DCompileTr([nodes |-> nodes, ops |-> ops, un |-> un]) IN [err |-> "none", e |-> c.e, tr |-> c.tr]
 
 \* ---- parsing -----------------------------------------------------------------------------------------------
 \* process_unary: this operator plus all directly following operator tokens that *can* be unary
 RECURSIVE UnChainEnd(_, _, _)
 UnChainEnd(T, toks, j) == IF j <= Len(toks) /\ toks[j].t = "op" /\ T[toks[j].v].un THEN UnChainEnd(T, toks, j + 1) ELSE j
 
-RECURSIVE DMake(_, _, _, _, _, _)
-\* returns [err, e, i] : i = index of the first token not consumed
-DMake(T, toks, i, nodes, ops, un) ==
-  IF i > Len(toks) THEN LET r == DNew(nodes, ops, un) IN r @@ [i |-> i]
+RECURSIVE DMake(_, _, _, _, _, _, _)
+\* returns [err, e, i, tr] : i = index of the first token not consumed, tr = the folds of all compile() calls so far, in
+\* the order in which the calls happen (inner levels first)
+DMake(T, toks, i, nodes, ops, un, tr) ==
+  IF i > Len(toks) THEN LET r == DNew(nodes, ops, un) IN [r EXCEPT !.tr = tr \o r.tr] @@ [i |-> i]
   ELSE LET tk == toks[i] IN
     CASE tk.t = "op" ->
-          IF RoleErr(T, toks, i) THEN [err |-> "binary-after-operator", i |-> i]
-          ELSE IF IsBinAt(T, toks, i) THEN DMake(T, toks, i + 1, nodes, Append(ops, DOp(T, tk.v)), un)
-          ELSE IF ~T[tk.v].un THEN [err |-> "no-unary", i |-> i]
+          IF RoleErr(T, toks, i) THEN [err |-> "binary-after-operator", i |-> i, tr |-> tr]
+          ELSE IF IsBinAt(T, toks, i) THEN DMake(T, toks, i + 1, nodes, Append(ops, DOp(T, tk.v)), un, tr)
+          ELSE IF ~T[tk.v].un THEN [err |-> "no-unary", i |-> i, tr |-> tr]
           ELSE LET j  == UnChainEnd(T, toks, i + 1)       \* token after the chain
                    ch == [q \in 1..(j - i) |-> toks[i + q - 1].v]
-               IN IF j > Len(toks) THEN [err |-> "panic-token-index", i |-> i]
+               IN IF j > Len(toks) THEN [err |-> "panic-token-index", i |-> i, tr |-> tr]
                   ELSE IF toks[j].t \in {"open", "close"}
-                  THEN LET s == DMake(T, toks, j + 1, <<>>, <<>>, ch) IN
-                       IF s.err # "none" THEN s ELSE DMake(T, toks, s.i, Append(nodes, DExpr(s.e)), ops, un)
+                  THEN LET s == DMake(T, toks, j + 1, <<>>, <<>>, ch, <<>>) IN
+                       IF s.err # "none" THEN s ELSE DMake(T, toks, s.i, Append(nodes, DExpr(s.e)), ops, un, tr \o s.tr)
                   ELSE IF toks[j].t = "var"
                   THEN LET s == DNew(<<DVar(toks[j].v)>>, <<>>, ch) IN
-                       DMake(T, toks, j + 1, Append(nodes, DExpr(s.e)), ops, un)
+                       DMake(T, toks, j + 1, Append(nodes, DExpr(s.e)), ops, un, tr \o s.tr)
                   ELSE IF toks[j].t \in {"num", "const"}
-                  THEN DMake(T, toks, j + 1, Append(nodes, DNum(ApplyUn(ch, ValOf(toks[j])))), ops, un)
-                  ELSE [err |-> "invalid-token-configuration", i |-> i]
-      [] tk.t \in {"num", "const"} -> DMake(T, toks, i + 1, Append(nodes, DNum(ValOf(tk))), ops, un)
-      [] tk.t = "var" -> DMake(T, toks, i + 1, Append(nodes, DVar(tk.v)), ops, un)
+                  THEN DMake(T, toks, j + 1, Append(nodes, DNum(ApplyUn(ch, ValOf(toks[j])))), ops, un, tr)
+                  ELSE [err |-> "invalid-token-configuration", i |-> i, tr |-> tr]
+      [] tk.t \in {"num", "const"} -> DMake(T, toks, i + 1, Append(nodes, DNum(ValOf(tk))), ops, un, tr)
+      [] tk.t = "var" -> DMake(T, toks, i + 1, Append(nodes, DVar(tk.v)), ops, un, tr)
       [] tk.t = "open" ->
-          LET s == DMake(T, toks, i + 1, <<>>, <<>>, <<>>) IN
-          IF s.err # "none" THEN s ELSE DMake(T, toks, s.i, Append(nodes, DExpr(s.e)), ops, un)
-      [] tk.t = "close" -> LET r == DNew(nodes, ops, un) IN r @@ [i |-> i + 1]
-      [] OTHER -> [err |-> "panic-unknown-token", i |-> i]
+          LET s == DMake(T, toks, i + 1, <<>>, <<>>, <<>>, <<>>) IN
+          IF s.err # "none" THEN s ELSE DMake(T, toks, s.i, Append(nodes, DExpr(s.e)), ops, un, tr \o s.tr)
+      [] tk.t = "close" -> LET r == DNew(nodes, ops, un) IN [r EXCEPT !.tr = tr \o r.tr] @@ [i |-> i + 1]
+      [] OTHER -> [err |-> "panic-unknown-token", i |-> i, tr |-> tr]
 
-DParse(T, toks) == DMake(T, toks, 1, <<>>, <<>>, <<>>)
+DParse(T, toks) == DMake(T, toks, 1, <<>>, <<>>, <<>>, <<>>)
 
 \* ---- evaluation -----------------------------------------------------------------------------------------------
 RECURSIVE DEval(_)
